@@ -117,8 +117,26 @@ func Time(t time.Time) *time.Time {
 	return &t
 }
 
+// Params renders the parameter list in the parameter syntax, so that loading
+// the recorded string again (retry, restart) yields the same list: values with
+// blanks or quotes are quoted.
 func Params(params []string) string {
-	return strings.Join(params, " ")
+	quoted := make([]string, len(params))
+	for i, p := range params {
+		quoted[i] = quoteParam(p)
+	}
+	return strings.Join(quoted, " ")
+}
+
+func quoteParam(p string) string {
+	if p != "" && !strings.ContainsAny(p, " \t\r\n\"") {
+		return p
+	}
+	name, value := "", p
+	if i := strings.Index(p, "="); i > 0 && !strings.ContainsAny(p[:i], " \t\r\n\"`") {
+		name, value = p[:i+1], p[i+1:]
+	}
+	return name + `"` + strings.ReplaceAll(value, `"`, `\"`) + `"`
 }
 
 type PID int
